@@ -165,7 +165,7 @@ func (w *c18aWorld) Run(c *kernel.RunCtx) {
 		quotes[i] = bt.NewFeeQuote()
 	}
 	fqs := bt.NewFeeQuotes("m0")
-	st := models.NewFQState(simEpoch.UnixNano(), nq)
+	st := models.NewFQState(simEpoch.Unix(), nq)
 	st.AddFresh("m0")
 	miners := []string{"m0", "m1", "m2"}
 	if c.Bool(2, 3) {
@@ -205,7 +205,15 @@ func (w *c18aWorld) Run(c *kernel.RunCtx) {
 					op.in.Empty = true
 				}
 			case "QUpdateExpiry":
-				op.in.Time = simEpoch.Add(time.Duration(c.Range(-3, 12)) * time.Hour).UnixNano()
+				// model times are whole Unix seconds, so that expiries centuries away stay representable
+				op.in.Time = simEpoch.Add(time.Duration(c.Range(-3, 12)) * time.Hour).Unix()
+				if c.Bool(1, 8) {
+					// "never expires" / "always expired" conventions and other instants far from the present
+					far := []time.Time{time.Date(9999, 12, 31, 23, 59, 59, 0, time.UTC), time.Date(3000, 1, 1, 0, 0, 0, 0, time.UTC), time.Date(2263, 1, 1, 0, 0, 0, 0, time.UTC),
+						time.Date(1677, 1, 1, 0, 0, 0, 0, time.UTC), time.Date(1000, 1, 1, 0, 0, 0, 0, time.UTC), {}, time.Unix(0, 0).UTC(), time.Unix(1<<40, 0).UTC()}
+					op.in.Time = far[c.Choose(len(far))].Unix()
+					c.Count("probe.expiry_centuries_away", 1)
+				}
 			case "QUnmarshal":
 				switch c.Pick(5, 2, 1, 1) {
 				case 0:
@@ -236,7 +244,7 @@ func (w *c18aWorld) Run(c *kernel.RunCtx) {
 	nclock := c.Choose(5)
 	clockTimes := make([]int64, nclock)
 	for i := range clockTimes {
-		clockTimes[i] = simEpoch.Add(time.Duration(c.Range(-2, 14))*time.Hour + time.Duration(c.Choose(3600))*time.Second).UnixNano()
+		clockTimes[i] = simEpoch.Add(time.Duration(c.Range(-2, 14))*time.Hour + time.Duration(c.Choose(3600))*time.Second).Unix()
 	}
 	c.End()
 	// ---- tasks ----
@@ -277,9 +285,9 @@ func (w *c18aWorld) Run(c *kernel.RunCtx) {
 				case "QAdd":
 					q.AddQuote(bt.FeeType(in.Type), feeOf(in.Fee))
 				case "QExpiry":
-					out.Time = q.Expiry().UnixNano()
+					out.Time = q.Expiry().Unix()
 				case "QUpdateExpiry":
-					q.UpdateExpiry(time.Unix(0, in.Time).UTC())
+					q.UpdateExpiry(time.Unix(in.Time, 0).UTC())
 				case "QExpired":
 					out.Bool = q.Expired()
 				case "QMarshal":
@@ -318,7 +326,7 @@ func (w *c18aWorld) Run(c *kernel.RunCtx) {
 			for i, ts := range clockTimes {
 				simrt.YieldPoint(fmt.Sprintf("harness:clock%d", i))
 				call := simrt.Stamp()
-				simrt.ClockSet(time.Unix(0, ts).UTC())
+				simrt.ClockSet(time.Unix(ts, 0).UTC())
 				record(ntasks, models.FQOp{Kind: "ClockSet", Time: ts}, call, models.FQOut{})
 			}
 		})
@@ -345,7 +353,7 @@ func (w *c18aWorld) Run(c *kernel.RunCtx) {
 	for qi, q := range quotes {
 		e, x := q.Expiry(), q.Expired()
 		if want := e.Before(simrt.Now().UTC()); x != want {
-			c.Fail("views-disagree-at-quiescence", "Expired", "after all tasks finished, Q%d.Expiry() is %d and the clock shows %d, yet Q%d.Expired() answers %v", qi, e.UnixNano(), simrt.Now().UnixNano(), qi, x)
+			c.Fail("views-disagree-at-quiescence", "Expired", "after all tasks finished, Q%d.Expiry() is %d and the clock shows %d, yet Q%d.Expired() answers %v", qi, e.Unix(), simrt.Now().Unix(), qi, x)
 			return
 		}
 		doc, err := q.MarshalJSON()
@@ -370,7 +378,7 @@ func (w *c18aWorld) Run(c *kernel.RunCtx) {
 	for _, op := range history {
 		ivs = append(ivs, models.Interval{Call: op.Call, Ret: op.Return, In: op.Input.(models.FQOp), Out: op.Output.(models.FQOut)})
 	}
-	if msg := models.ExpiredExplained(ivs, simEpoch.UnixNano(), simEpoch.UnixNano()); msg != "" {
+	if msg := models.ExpiredExplained(ivs, simEpoch.Unix(), simEpoch.Unix()); msg != "" {
 		c.Fail("expired-unexplained", "", "%s", msg)
 		return
 	}
